@@ -132,3 +132,5 @@ package federation
 //@   at loop 2 back: assert len(todo) < len0
 //@   at send#2: assert ferr != nil
 //@   at send#4: assert ferr == nil
+//@   # wherever it is sent from, a nil report means the last backend call succeeded
+//@   at send#*: assert $v == nil ==> ferr == nil
